@@ -197,15 +197,15 @@ class USBIsochronousStreamInEndpoint(Elaboratable):
                     # If we've just completed transmitting a packet, or we've
                     # just transmitted a full frame, end our transmission.
                     with m.If(byte_terminates_send):
-                        m.d.usb += [
-                            # Move to the next DATA pid, which is always one DATA PID less.
-                            # [USB2.0: 5.9.2]. We'll reset this back to its maximum value when
-                            # the next frame starts.
-                            next_data_pid        .eq(next_data_pid - 1),
+                        # Move to the next DATA pid, which is always one DATA PID less -- but never
+                        # below DATA0, which also labels anything we send after the frame's last packet.
+                        # [USB2.0: 5.9.2]. We'll reset this back to its maximum value when
+                        # the next frame starts.
+                        with m.If(next_data_pid != 0):
+                            m.d.usb += next_data_pid.eq(next_data_pid - 1)
 
-                            # Mark our next packet as being a full one.
-                            bytes_left_in_packet .eq(self._max_packet_size),
-                        ]
+                        # Mark our next packet as being a full one.
+                        m.d.usb += bytes_left_in_packet.eq(self._max_packet_size)
                         m.next = "IDLE"
 
             # SEND_ZLP -- sends a zero-length packet, and then return to idle.
